@@ -1,6 +1,7 @@
 import ScriggoV.Model.TypeCheck
 import ScriggoV.Model.Terminating
 import ScriggoV.Model.Assignable
+import ScriggoV.Model.TypeIdent
 /-! Line protocol of C03: `prog <n> <stmt>…` in prefix notation (see go/props/c03/ast.go).
 Answer: `ok <id>:<type>[:<value>] …` (names in order of declaration), `rej <rule>`,
 `outside <why>`. Anything unparsable → `none` (`bad-op`). -/
@@ -270,7 +271,111 @@ def parseAVal (toks : List String) : Option (ScriggoV.Assignable.AVal × List St
   | "t" :: rest => do let (t, rest) ← parseATy (rest.length + 1) rest; pure (.typed t, rest)
   | _ => none
 
+/-! `tid <V> <T>`: type identity, assignability of a V value to T, convertibility, in the
+universe of Model/TypeIdent.lean. Types in prefix notation: `b <basic>`, `n <id> <U>`, `p <T>`,
+`s <T>`, `a <len> <T>`, `m <K> <E>`, `c <0|1|2> <T>` (chan, <-chan, chan<-),
+`f <np> <T>… <nr> <T>… <0|1>` (variadic), `st <k> (<name> <tag hex|-> <emb 0|1> <T>)×k`,
+`i <k> (<name> <T>)×k`. Answer `ok <identical> <assignable> <convertible>` (0/1). -/
+section TypeIdent
+open ScriggoV.TypeIdent
+
+def parseBKind : String → Option BKind
+  | "bool" => some .bool | "int" => some .int | "int8" => some .int8 | "int16" => some .int16
+  | "int32" => some .int32 | "int64" => some .int64 | "uint" => some .uint | "uint8" => some .uint8
+  | "uint16" => some .uint16 | "uint32" => some .uint32 | "uint64" => some .uint64
+  | "uintptr" => some .uintptr | "float32" => some .float32 | "float64" => some .float64
+  | "complex64" => some .complex64 | "complex128" => some .complex128 | "string" => some .string
+  | _ => none
+
+mutual
+def parseTy : Nat → List String → Option (ScriggoV.TypeIdent.Ty × List String)
+  | 0, _ => none
+  | fuel + 1, toks =>
+    match toks with
+    | "b" :: k :: rest => do let b ← parseBKind k; pure (.basic b, rest)
+    | "n" :: n :: rest => do
+      let id ← n.toNat?
+      let (u, rest) ← parseTy fuel rest
+      pure (.named id u, rest)
+    | "p" :: rest => do let (e, rest) ← parseTy fuel rest; pure (.ptr e, rest)
+    | "s" :: rest => do let (e, rest) ← parseTy fuel rest; pure (.slice e, rest)
+    | "a" :: n :: rest => do
+      let k ← n.toNat?
+      let (e, rest) ← parseTy fuel rest
+      pure (.array k e, rest)
+    | "m" :: rest => do
+      let (k, rest) ← parseTy fuel rest
+      let (e, rest) ← parseTy fuel rest
+      pure (.map k e, rest)
+    | "c" :: d :: rest => do
+      let dir ← match d with
+        | "0" => some Dir.both | "1" => some Dir.recv | "2" => some Dir.send | _ => none
+      let (e, rest) ← parseTy fuel rest
+      pure (.chan dir e, rest)
+    | "f" :: n :: rest => do
+      let np ← n.toNat?
+      let (ps, rest) ← parseTyList fuel np rest
+      match rest with
+      | m :: rest => do
+        let nr ← m.toNat?
+        let (rs, rest) ← parseTyList fuel nr rest
+        match rest with
+        | "0" :: rest => pure (.func ps rs false, rest)
+        | "1" :: rest => pure (.func ps rs true, rest)
+        | _ => none
+      | [] => none
+    | "st" :: n :: rest => do
+      let k ← n.toNat?
+      let (fs, rest) ← parseFields fuel k rest
+      pure (.struct fs, rest)
+    | "i" :: n :: rest => do
+      let k ← n.toNat?
+      let (ms, rest) ← parseMethods fuel k rest
+      pure (.iface ms, rest)
+    | _ => none
+def parseTyList : Nat → Nat → List String → Option (TyList × List String)
+  | 0, _, _ => none
+  | _ + 1, 0, toks => some (.nil, toks)
+  | fuel + 1, k + 1, toks => do
+    let (t, rest) ← parseTy fuel toks
+    let (ts, rest) ← parseTyList fuel k rest
+    pure (.cons t ts, rest)
+def parseFields : Nat → Nat → List String → Option (Fields × List String)
+  | 0, _, _ => none
+  | _ + 1, 0, toks => some (.nil, toks)
+  | fuel + 1, k + 1, toks =>
+    match toks with
+    | name :: tag :: emb :: rest => do
+      let tg ← parseStr tag
+      let e ← match emb with | "0" => some false | "1" => some true | _ => none
+      let (t, rest) ← parseTy fuel rest
+      let (fs, rest) ← parseFields fuel k rest
+      pure (.cons name tg e t fs, rest)
+    | _ => none
+def parseMethods : Nat → Nat → List String → Option (Methods × List String)
+  | 0, _, _ => none
+  | _ + 1, 0, toks => some (.nil, toks)
+  | fuel + 1, k + 1, toks =>
+    match toks with
+    | name :: rest => do
+      let (t, rest) ← parseTy fuel rest
+      let (ms, rest) ← parseMethods fuel k rest
+      pure (.cons name t ms, rest)
+    | [] => none
+end
+
+def tid (toks : List String) : Option String := do
+  let (v, rest) ← parseTy (2 * toks.length + 4) toks
+  let (t, rest) ← parseTy (2 * toks.length + 4) rest
+  if !rest.isEmpty then none
+  else
+    let bit (b : Bool) := if b then "1" else "0"
+    pure ("ok " ++ bit (identical false v t) ++ " " ++ bit (assignable v t) ++ " " ++ bit (convertible v t))
+
+end TypeIdent
+
 def handle : List String → Option String
+  | "tid" :: toks => tid toks
   | "asg" :: toks => do
     let (v, rest) ← parseAVal toks
     let (t, rest) ← parseATy (rest.length + 1) rest
